@@ -395,3 +395,175 @@ def render(f):
     L.append('Definition perr_code_map : list (perr_kind * N) := [%s].' % '; '.join('(PK_%s, %s)' % x for x in f['code_map']))
     L.append('Definition unexpected_end_code : N := %s.' % f['unexpected_end_code'])
     return '\n'.join(L) + '\n'
+
+
+# ---------------------------------------------------------------- whole-body anchors
+# Every function / struct the frame-layer model mirrors is compared, as a whole, with a committed snapshot of its
+# comment-free, whitespace-free text in which only the sites that are read as FACTS above are masked.  An inserted
+# statement, an early return, a new struct field, a new match arm: the text differs -> AnchorLost (= violation).
+import json
+import os
+
+BODIES_SNAPSHOT = os.path.join(os.path.dirname(os.path.abspath(__file__)), 'snapshots', 'GenFrameTypes.bodies.json')
+
+
+def _sub_source(src, text):
+    s = Source.__new__(Source)
+    s.path, s.raw, s.text = src.path, text, text
+    return s
+
+
+def _block(src, regex):
+    """squeezed text from the match of regex to the end of the brace block that follows it"""
+    m = re.compile(regex).search(src.text)
+    if not m:
+        raise AnchorLost('%s not found in %s' % (regex, src.path))
+    i = src.text.find('{', m.end() - 1)
+    j = match_close(src.text, i)
+    return squeeze(src.text[m.start():j + 1])
+
+
+def _fn_in(src, impl_regex, fn, nth=0):
+    blk, _, _ = src.item_block(impl_regex)
+    return squeeze(_sub_source(src, blk).fn_body(fn, nth=nth)[0])
+
+
+def mask_codes(s):
+    return re.sub(r'Code::\w+', 'Code::#', s)
+
+
+def frame_bodies(repo):
+    b = {}
+    fr = Source(repo + '/h3/src/proto/frame.rs')
+    s = _fn_in(fr, r'(?m)^impl\s+Frame<PayloadLen>\s*\{', 'decode')
+    s = re.sub(r'Incomplete\(remaining\+\d+\)', 'Incomplete(remaining+#)', s)
+    s = re.sub(r'ifbuf\.remaining\(\)(<=|<)lenasusize\{returnErr\(FrameError::Incomplete\(\d+\+lenasusize\)\);\}', 'PAYLOADTEST;', s)
+    s = s.replace('.map_err(|_|FrameError::Malformed)', '')
+    s = re.sub(r'ifframe\.is_ok\(\)&&payload\.has_remaining\(\)\{returnErr\(FrameError::Malformed\);\}', '', s)
+    s = re.sub(r'(?:\|?FrameType::H2_\w+)+=>Err\(FrameError::UnsupportedFrame\(ty\.0\)\),', 'H2ARMS,', s)
+    s = s.replace('_=>{payload.advance(lenasusize);Err(', '_=>{Err(')
+    b['Frame::decode'] = s
+    b['FrameType::decode'] = _fn_in(fr, r'(?m)^impl\s+FrameType\s*(?=\{\s*fn\s+decode)', 'decode')
+    b['PushPromise::decode'] = _fn_in(fr, r'(?m)^impl\s+PushPromise\s*\{', 'decode')
+    b['Settings::decode'] = re.sub(r'remaining\(\)<\d+', 'remaining()<#', _fn_in(fr, r'(?m)^impl\s+Settings\s*\{', 'decode'))
+    b['Settings::insert'] = _fn_in(fr, r'(?m)^impl\s+Settings\s*\{', 'insert')
+    fs = Source(repo + '/h3/src/frame.rs')
+    b['struct FrameStream'] = _block(fs, r'pub\s+struct\s+FrameStream<S,\s*B>\s*\{')
+    b['struct FrameDecoder'] = _block(fs, r'#\[derive\(Default\)\]\s*pub\s+struct\s+FrameDecoder\s*\{')
+    b['FrameStream::new'] = squeeze(fs.fn_body('new')[0])
+    b['FrameStream::into_inner'] = squeeze(fs.fn_body('into_inner')[0])
+    s = squeeze(fs.fn_body('poll_next')[0])
+    s = re.sub(r'Poll::Ready\(true\)=>\{ifself\.stream\.buf_mut\(\)\.has_remaining\(\)\{Poll::Ready\(Err\(FrameStreamError::UnexpectedEnd\)\)\}else\{Poll::Ready\(Ok\(None\)\)\}\}', 'ENDARM', s)
+    b['poll_next'] = s
+    s = squeeze(fs.fn_body('poll_data')[0])
+    s = re.sub(r'\(None,true\)ifself\.remaining_data!=usize::MAX=>\{Poll::Ready\(Err\(FrameStreamError::UnexpectedEnd\)\)\}', '', s)
+    s = re.sub(r'\(Some\(d\),true\)ifd\.remaining\(\)<self\.remaining_data&&!self\.stream\.buf_mut\(\)\.has_remaining\(\)=>\{Poll::Ready\(Err\(FrameStreamError::UnexpectedEnd\)\)\}', '', s)
+    b['poll_data'] = s
+    for fn in ('stop_sending', 'has_data', 'is_eos', 'try_recv', 'id', 'split'):
+        b['FrameStream::' + fn] = squeeze(fs.fn_body(fn)[0])
+    s = _fn_in(fs, r'(?m)^impl\s+FrameDecoder\s*\{', 'decode')
+    s = s.replace('self.expected=None;', '')
+    s = re.sub(r'ifsrc\.remaining\(\)(<=|<)min', 'ifsrc.remaining()?min', s)
+    b['FrameDecoder::decode'] = s
+    b['enum FrameStreamError'] = _block(fs, r'pub\s+enum\s+FrameStreamError\s*\{')
+    b['enum FrameProtocolError'] = _block(fs, r'pub\s+enum\s+FrameProtocolError\s*\{')
+    st = Source(repo + '/h3/src/stream.rs')
+    b['struct BufRecvStream'] = _block(st, r'pub\s+struct\s+BufRecvStream<S,\s*B>\s*\{')
+    blk, _, _ = st.item_block(r'impl<S,\s*B>\s+BufRecvStream<S,\s*B>\s*(?=\{\s*pub\s+fn\s+new)')
+    b['BufRecvStream::new'] = squeeze(blk)
+    blk, _, _ = st.item_block(r'impl<B,\s*S:\s*RecvStream>\s+BufRecvStream<S,\s*B>\s*\{')
+    b['BufRecvStream recv impl'] = squeeze(blk)
+    blk, _, _ = st.item_block(r'impl<S,\s*B>\s+BidiStream<B>\s+for\s+BufRecvStream<S,\s*B>')
+    b['BufRecvStream::split'] = squeeze(blk)
+    bf = Source(repo + '/h3/src/buf.rs')
+    cut = bf.text.find('#[cfg(test)]\nmod tests')
+    if cut < 0:
+        raise AnchorLost('buf.rs tests marker')
+    b['buf.rs'] = squeeze(bf.text[:cut])
+    ie = Source(repo + '/h3/src/error/internal_error.rs')
+    b['got_frame_error'] = mask_codes(squeeze(ie.fn_body('got_frame_error')[0]))
+    ce = Source(repo + '/h3/src/error/connection_error_creators.rs')
+    b['handle_frame_stream_error_on_request_stream'] = mask_codes(squeeze(ce.fn_body('handle_frame_stream_error_on_request_stream', nth=1)[0]))
+    b['handle_quic_stream_error'] = squeeze(ce.fn_body('handle_quic_stream_error')[0])
+    b['handle_connection_error_on_stream'] = squeeze(ce.fn_body('handle_connection_error_on_stream')[0])
+    b['control error arms'] = mask_codes(''.join(p + '=>' + a + ';' for p, a in control_error_arms(repo)))
+    return b
+
+
+def control_error_arms(repo):
+    """the `Err(FrameStreamError::..)` arms of ConnectionInner::poll_control's match on recv.poll_next"""
+    cn = Source(repo + '/h3/src/connection.rs')
+    body, _ = cn.fn_body('poll_control')
+    mb, _, _ = find_match_body(body, r'match\s+ready!\(recv\.poll_next\(cx\)\)\s*\{')
+    arms = [(squeeze(p), squeeze(a)) for p, a in split_arms(mb)]
+    return [(p, a) for p, a in arms if p.startswith('Err(FrameStreamError::')]
+
+
+def control_facts(repo):
+    f = {}
+    for p, a in control_error_arms(repo):
+        if p == 'Err(FrameStreamError::UnexpectedEnd)':
+            m = re.search(r'InternalConnectionError::new\(Code::(\w+),', a)
+            if not m:
+                raise AnchorLost('control UnexpectedEnd arm')
+            f['ctl_unexpected_end_code'] = m.group(1)
+        elif p == 'Err(FrameStreamError::Proto(frame_error))':
+            f['ctl_proto_via_table'] = ('InternalConnectionError::got_frame_error(frame_error)' in a
+                                        and 'InternalConnectionError::new' not in a)
+    if len(f) != 2:
+        raise AnchorLost('control stream error arms')
+    return f
+
+
+def check_bodies(name, bodies, snapshot_path):
+    try:
+        snap = json.load(open(snapshot_path))
+    except FileNotFoundError:
+        raise AnchorLost('no body snapshot ' + snapshot_path)
+    for k in sorted(set(snap) | set(bodies)):
+        if snap.get(k) != bodies.get(k):
+            a, b2 = snap.get(k) or '', bodies.get(k) or ''
+            i = 0
+            while i < min(len(a), len(b2)) and a[i] == b2[i]:
+                i += 1
+            raise AnchorLost('%s: the text of `%s` is no longer the one the model was written from (first difference at '
+                             'offset %d: snapshot `...%s` / now `...%s`)' % (name, k, i, a[max(0, i - 30):i + 40], b2[max(0, i - 30):i + 40]))
+
+
+_extract_facts = extract
+
+
+def extract(repo):
+    f, spans = _extract_facts(repo)
+    f.update(control_facts(repo))
+    m = re.search(r'FrameStreamError::Proto\(frame_error\)=>self\.handle_connection_error_on_stream\(InternalConnectionError::got_frame_error\(frame_error\),?\)',
+                  squeeze(Source(repo + '/h3/src/error/connection_error_creators.rs').fn_body('handle_frame_stream_error_on_request_stream', nth=1)[0]))
+    f['req_proto_via_table'] = bool(m)
+    fs = Source(repo + '/h3/src/frame.rs')
+    for key, rx in (('fd_fields', r'pub\s+struct\s+FrameDecoder\s*\{'), ('fs_fields', r'pub\s+struct\s+FrameStream<S,\s*B>\s*\{')):
+        blk, _, _ = fs.item_block(rx)
+        f[key] = re.findall(r'(?:pub(?:\([^)]*\))?\s+)?(\w+)\s*:', re.sub(r'<[^<>]*>', '', blk))
+    check_bodies('gen_frames', frame_bodies(repo), BODIES_SNAPSHOT)
+    return f, spans
+
+
+_render_facts = render
+
+
+def render(f):
+    t = _render_facts(f)
+    t += '(* the two sites that turn a FrameStreamError into a connection error code: request streams above, and\n'
+    t += '   ConnectionInner::poll_control for the control stream; do the Proto arms go through got_frame_error? *)\n'
+    t += 'Definition ctl_unexpected_end_code : N := %s.\n' % f['ctl_unexpected_end_code']
+    t += 'Definition ctl_proto_via_table : bool := %s.\n' % b(f['ctl_proto_via_table'])
+    t += 'Definition req_proto_via_table : bool := %s.\n' % b(f['req_proto_via_table'])
+    t += '(* the whole state: struct FrameDecoder { %s }, struct FrameStream { %s } *)\n' % (', '.join(f['fd_fields']), ', '.join(f['fs_fields']))
+    t += 'Definition fd_decoder_field_count : N := %d.\nDefinition fs_stream_field_count : N := %d.\n' % (len(f['fd_fields']), len(f['fs_fields']))
+    return t
+
+
+if __name__ == '__main__':
+    import sys
+    if len(sys.argv) > 2 and sys.argv[1] == '--snapshot-bodies':
+        json.dump(frame_bodies(sys.argv[2]), open(BODIES_SNAPSHOT, 'w'), indent=1, sort_keys=True)
+        print('written', BODIES_SNAPSHOT)
